@@ -223,13 +223,20 @@ pub fn setup_from_json(v: &Value) -> Setup {
     }
 }
 
-/// One line of a conformance trace: a history with what the executing backend observed.
+/// One line of a conformance trace: a history with what the executing backend observed. The state of the
+/// access-counting pipeline is recorded separately: when buffers were dropped (the consumer was slower than the
+/// reader) it depends on real timing and is not comparable between backends.
 pub fn trace_line(run: &SeqRun) -> Value {
+    let n = run.ops.len();
+    let full = canon(run, n, &[], true);
+    let plain = canon(run, n, &[], false);
     json!({
         "setup": setup_to_json(&run.setup),
         "ops": run.ops.iter().map(op_to_json).collect::<Vec<_>>(),
         "observed": run.history(),
-        "canon": canon(run, run.ops.len(), &[], true),
+        "canon": plain,
+        "sketch": full[plain.len()..].to_string(),
+        "dropped": run.obs[n].stats[ACCESS_DROPPED],
         "evicted": run.events_per_step.iter().flatten().any(|e| e.kind == "admission_victim"),
     })
 }
